@@ -3,6 +3,7 @@
 use crate::engine::{CaseInfo, CaseResult, Ctx, Failure, Property, Src, Tier};
 use crate::ensure;
 use crate::probes::{default_manager, EffectLog, ProbeEffectBuilder, ProbeKind};
+use crate::probes::agent::{Phase, Stage, Target, World, PHASES, TARGETS};
 use crate::scene::gen::gen_easing;
 use kira::info::{Info, MockInfoBuilder};
 use kira::modulator::lfo::{LfoBuilder, LfoHandle, Waveform};
@@ -787,12 +788,85 @@ fn waiting_sound_follows(ibs: usize, wait_chunks: f64, value: f64, db_lo: f64, s
 	Ok(())
 }
 
+/// A tweener and a sound whose volume is linked to it, created by the gameplay thread at one of the
+/// moments of a callback at which a second thread's calls can land: whenever the sound is audible
+/// its level is the mapping of the tweener's value - the sound never gets ahead of its modulator.
+fn hand_off(ibs: usize, phase: Phase, target: Target, other_first: bool, value: f64, db_lo: f64) -> Result<(), Failure> {
+	use kira::sound::static_sound::{StaticSoundData, StaticSoundSettings};
+	let rate = 48000u32;
+	let mut stage = Stage::new(rate, ibs, other_first)?;
+	let want_db = db_lo + (0.0 - db_lo) * value.clamp(0.0, 1.0);
+	let want = if want_db <= -60.0 { 0.0 } else { 10f64.powf(want_db / 20.0) };
+	let mut keep = None;
+	let mut audible = 0usize;
+	let mut first_buffer: Option<usize> = None;
+	// several internal buffers per callback: a sound that arrived a callback ahead of its
+	// modulator would play all of them at the parameter's default
+	let frames = ibs * 3;
+	for k in 0..5 {
+		let cb = if k == 0 {
+			let (r, cb) = stage.callback(frames, phase, move |w: &mut World| -> Result<_, &'static str> {
+				let tweener = w.mgr.add_modulator(TweenerBuilder { initial_value: value }).map_err(|_| "modulator limit")?;
+				let volume: Value<kira::Decibels> = Value::FromModulator {
+					id: tweener.id(),
+					mapping: Mapping {
+						input_range: (0.0, 1.0),
+						output_range: (kira::Decibels(db_lo as f32), kira::Decibels(0.0)),
+						easing: Easing::Linear,
+					},
+				};
+				let data = StaticSoundData {
+					sample_rate: rate,
+					frames: (0..64).map(|_| kira::Frame::from_mono(1.0)).collect::<Vec<_>>().into(),
+					settings: StaticSoundSettings::new().loop_region(..).volume(volume),
+					slice: None,
+				};
+				let sound = match target {
+					Target::Main => w.mgr.play(data),
+					Target::AgentTrack => w.agent_track.play(data),
+					Target::OtherTrack => w.other_track.play(data),
+				}
+				.map_err(|_| "sound limit")?;
+				Ok((tweener, sound))
+			})?;
+			keep = Some(r.map_err(|e| Failure::simple("setup", e))?);
+			cb
+		} else {
+			stage.callback(frames, Phase::Before, |_| ())?.1
+		};
+		for i in 0..frames {
+			let (l, _) = cb.frame(i, 2);
+			if l != 0.0 || audible > 0 {
+				audible += 1;
+				if first_buffer.is_none() {
+					first_buffer = Some((k * frames + i) / ibs);
+				}
+				// in its first internal buffer a linked parameter moves from its default to the
+				// mapped value (the parameter's previous value is the default): judged from the
+				// second buffer on
+				if (k * frames + i) / ibs > first_buffer.unwrap() {
+					ensure!(
+						(l as f64 - want).abs() <= 1e-4 * want.max(1e-3),
+						"linked-sound-parameter-follows-from-the-first-frame",
+						"a tweener (value {value}) and a sound whose volume is linked to it were created {phase:?} of callback 0 (sound on {target:?}); callback {k} frame {i} ({audible} frames after the sound became audible, internal buffer #{} of the run, audible since #{}): output {l}, the mapping gives {want_db:.3} dB = {want}; internal buffer {ibs}, callbacks of {frames} frames",
+						(k * frames + i) / ibs,
+						first_buffer.unwrap()
+					);
+				}
+			}
+		}
+	}
+	ensure!(audible > 0 || want == 0.0, "linked-sound-parameter-follows-from-the-first-frame", "the sound created {phase:?} of callback 0 on {target:?} never became audible in five callbacks (mapped gain {want}); internal buffer {ibs}");
+	drop(keep);
+	Ok(())
+}
+
 impl Property for C17 {
 	fn id(&self) -> &'static str {
 		"C17"
 	}
 	fn rule(&self) -> &'static str {
-		"two kinds of cases. (1) One LFO built through LfoBuilder and driven directly: four waveforms, frequencies 0..1e5 Hz, amplitudes and offsets of either sign, starting phases in radians, and a history of update steps interleaved with set_phase / set_waveform / set_frequency / set_amplitude / set_offset (with tweens); after every update the value must lie inside offset +- |amplitude| and equal offset + amplitude x shape(frac(phase/2pi + sum f dt)) from an independent description of the documented shapes (1e-6, not tested within 1e-6 of a waveform jump). (2) Through the renderer: tweeners, LFOs (optionally with their offset linked to another modulator) and probe modulators are added and dropped while probe effects whose parameter is linked to a modulator through a generated mapping (ranges, inverted ranges, all easings) record the parameter in every internal buffer; the parameter must equal the mapping of the modulator's value of the same buffer, hold its last value once the modulator is removed, and every probe modulator must be updated exactly once per internal buffer with dt = buffer / rate. One renderer case in eight also plays a DC sound whose volume is linked to a tweener and whose start is delayed by 2.5 .. 6.5 internal buffers: from its fifth audible frame on the output must be the mapped gain (1e-4), nothing ramps in from the default. Non-trivial = a non-sine waveform or a non-identity mapping, and (renderer cases) a modulator drop; distinct = distinct decoded choices. The tweener's own curve is checked in C06."
+		"two kinds of cases. (1) One LFO built through LfoBuilder and driven directly: four waveforms, frequencies 0..1e5 Hz, amplitudes and offsets of either sign, starting phases in radians, and a history of update steps interleaved with set_phase / set_waveform / set_frequency / set_amplitude / set_offset (with tweens); after every update the value must lie inside offset +- |amplitude| and equal offset + amplitude x shape(frac(phase/2pi + sum f dt)) from an independent description of the documented shapes (1e-6, not tested within 1e-6 of a waveform jump). (2) Through the renderer: tweeners, LFOs (optionally with their offset linked to another modulator) and probe modulators are added and dropped while probe effects whose parameter is linked to a modulator through a generated mapping (ranges, inverted ranges, all easings) record the parameter in every internal buffer; the parameter must equal the mapping of the modulator's value of the same buffer, hold its last value once the modulator is removed, and every probe modulator must be updated exactly once per internal buffer with dt = buffer / rate. One renderer case in eight also plays a DC sound whose volume is linked to a tweener and whose start is delayed by 2.5 .. 6.5 internal buffers: from its fifth audible frame on the output must be the mapped gain (1e-4), nothing ramps in from the default. Every other renderer case also creates a tweener and a DC sound whose volume is linked to it at one of six moments of a callback (before it; from on_start_processing or process of a custom sound on a sub-track or on the main track; between Renderer::on_start_processing and Renderer::process), on the main track, the agent's track or another track, with three internal buffers per callback: from the second internal buffer in which the sound is audible its level must be the mapped gain - a sound never gets ahead of the modulator created before it. Non-trivial = a non-sine waveform or a non-identity mapping, and (renderer cases) a modulator drop; distinct = distinct decoded choices. The tweener's own curve is checked in C06."
 	}
 	fn assumptions(&self) -> Vec<String> {
 		vec![
@@ -827,6 +901,13 @@ impl Property for C17 {
 			if src.chance(1, 8) {
 				waiting_sound_follows(src.pick(&[64usize, 16, 128, 8]), src.pick(&[2.5f64, 3.0, 6.5, 4.2]), src.pick(&[0.25f64, 0.5, 0.9, 0.0]), src.pick(&[-20.0f64, -40.0, -6.0]), false)?;
 				classes.push("sound-parameter-linked-while-waiting");
+			}
+			if src.chance(1, 2) {
+				let phase = PHASES[src.index(PHASES.len())];
+				hand_off(src.pick(&[64usize, 16, 128, 8]), phase, TARGETS[src.index(TARGETS.len())], src.bool(), src.pick(&[0.25f64, 0.5, 0.9, 0.0]), src.pick(&[-20.0f64, -40.0, -6.0]))?;
+				if phase != Phase::Before {
+					classes.push("modulator-and-sound-handed-over-inside-a-callback");
+				}
 			}
 			if dropped {
 				classes.push("modulator-dropped");
